@@ -152,7 +152,7 @@ class Tie:
             if op == "names":
                 ops[-1] = [{"op": "parse_get_name", "hex": b.hex()}, {"op": "bind_get_name", "hex": b.hex()}]
         real = L.run_codec(self.binp, ops)
-        vals = vlib.coq_eval("c08_" + self.tag, PRE, exprs, shard=max(50, len(exprs) // 16 + 1))
+        vals = L.coq_eval("c08_" + self.tag, PRE, exprs, shard=max(50, len(exprs) // 16 + 1))
         for (op, b, m), o, v in zip(cases, real, vals):
             self.evals += 1
             self.distinct.add((op, b, m))
@@ -342,7 +342,7 @@ def layer1(run, binp, quick, chk=True, tag="debug"):
     real = L.run_codec(binp, [ops])[0]
     exprs = ["(parse_complete, close_complete)"] + ["obs_close_new %s" % vlib.coq_bytes(n) for n in NEWNAMES + NAMES] + \
             ["(gname %d, encode_parse %s (rename_parse (mkParse 80%%N 21 [97%%N] %s 1 [23]) (gname %d)))" % (i, "true" if chk else "false", vlib.coq_bytes(b"SELECT 1"), i) for i in range(12)]
-    vals = [vlib.parse_coq(v) for v in vlib.coq_eval("c08k_" + tag, PRE, exprs)]
+    vals = [vlib.parse_coq(v) for v in L.coq_eval("c08k_" + tag, PRE, exprs)]
     if (bytes(vals[0][0]).hex(), bytes(vals[0][1]).hex()) != (real[0]["parse_complete"], real[0]["close_complete"]):
         run.violation("tie-broken", "parse_complete()/close_complete() bytes differ from the model", {"impl": real[0], "model": str(vals[0])})
         return tie
@@ -450,7 +450,7 @@ def layer1(run, binp, quick, chk=True, tag="debug"):
             # the same facts inside Coq on a sample: old_hkey merges, hkey separates
             sample = groups[:25]
             exprs = ["(map old_hkey %s, map hstream %s)" % (coq_triples(g), coq_triples(g)) for g in sample]
-            for g, v in zip(sample, vlib.coq_eval("c08h_" + tag, PRE, exprs)):
+            for g, v in zip(sample, L.coq_eval("c08h_" + tag, PRE, exprs)):
                 olds, news = vlib.parse_coq(v)
                 tie.evals += 1
                 if len({tuple(x) for x in olds}) != 1 or len({tuple(x) for x in news}) != len(g) or \
